@@ -450,13 +450,20 @@ class DataSim(object):
     def cache_signature(self):
         """Read-only abstract state of the live caches (coverage measure only, never a verdict)."""
         sig = []
-        for d, data in enumerate(self.datasets):
-            loaded = []
-            for i, c in enumerate(data._get_score_cache):
-                for f in c.keys():
-                    nm = f.name() if callable(getattr(f, "name", None)) else str(f)
-                    loaded.append("%d:%s" % (i, nm))
-            sig.append((tuple(sorted(loaded)), len(data._get_scores_cache)))
+        try:
+            for d, data in enumerate(self.datasets):
+                loaded = []
+                for i, c in enumerate(data._get_score_cache):
+                    for f in c.keys():
+                        nm = f.name() if callable(getattr(f, "name", None)) else str(f)
+                        loaded.append("%d:%s" % (i, nm))
+                sig.append((tuple(sorted(loaded)), len(data._get_scores_cache)))
+        except Exception:
+            # the private cache attributes are an implementation detail: when they are gone (refactored
+            # code) fall back to a black-box abstraction of the state: the set of request shapes served so far
+            self.stats["probe:cache_introspection_unavailable"] = 1
+            shapes = sorted(set((r["ds"], "+".join(f[0] for f in r["req"]["fields"]), r["req"]["input"]) for r in self.records))
+            sig = [("blackbox", tuple(shapes))]
         return hashlib.sha256(repr(sig).encode()).hexdigest()[:12]
 
     def step(self, step, op):
